@@ -1,4 +1,4 @@
-import PytypeModel.Proofs.SolverProgram
+import PytypeModel.Proofs.SolverWF
 
 /-! # C08 — solver answers do not depend on what was asked or built before
 
@@ -78,14 +78,44 @@ theorem query_fresh_solverfree (addrs : List Nat) (h : List Op) (q : Query)
   rw [ask_fst]
   rcases hq with ⟨n, bs, rfl⟩ | ⟨v, n, rfl⟩ <;> rfl
 
+/-- **query_fresh on acyclic graphs, solver alive or not**: whatever was asked and built before, if the
+graph *at the time of the query* is well-formed and acyclic (node conditions, multiple origins and source
+sets, every mutating entry point allowed; the graph may have been cyclic earlier), the long-lived
+program answers what the fresh replica answers.  Uses memo soundness (`recall_spec`). -/
+theorem query_fresh_acyclic (addrs : List Nat) (h : List Op) (q : Query) (rank : NodeId → Nat)
+    (hwf : ((PState.init addrs).run h).g.WF) (hac : ((PState.init addrs).run h).g.AcyclicBy rank) :
+    liveAnswer addrs h q = freshAnswer addrs h q := by
+  rw [fresh_is_cold]
+  exact ask_eq_cold _ (memoGood_run h _ (memoGood_init addrs)) hwf hac q
+
+/-- the same for histories: a well-formed history (all ids in range) always yields a well-formed graph, so
+acyclicity of the current graph is the only hypothesis. -/
+theorem query_fresh_acyclic_history (addrs : List Nat) (h : List Op) (q : Query) (rank : NodeId → Nat)
+    (hh : wfHistory (PState.init addrs) h = true) (hac : ((PState.init addrs).run h).g.AcyclicBy rank) :
+    liveAnswer addrs h q = freshAnswer addrs h q :=
+  query_fresh_acyclic addrs h q rank (wf_run addrs h hh) hac
+
+/-- **repeated queries never flip** (acyclic): asking anything in between does not change an answer -/
+theorem repeated_query_stable (addrs : List Nat) (h : List Op) (qs : List Query) (q : Query)
+    (rank : NodeId → Nat)
+    (hwf : ((PState.init addrs).run h).g.WF) (hac : ((PState.init addrs).run h).g.AcyclicBy rank) :
+    liveAnswer addrs (h ++ qs.map Op.query) q = liveAnswer addrs h q := by
+  have hg : ∀ (qs : List Query) (s : PState), (s.run (qs.map Op.query)).g = s.g := by
+    intro qs
+    induction qs with
+    | nil => intro s; rfl
+    | cons q' qs ih => intro s; simp only [List.map_cons, PState.run, List.foldl_cons] at ih ⊢; rw [ih]; exact ask_g s q'
+  have hrun : (PState.init addrs).run (h ++ qs.map Op.query) = ((PState.init addrs).run h).run (qs.map Op.query) := by
+    simp [PState.run, List.foldl_append]
+  have hg' := hg qs ((PState.init addrs).run h)
+  rw [query_fresh_acyclic addrs (h ++ qs.map Op.query) q rank (by rw [hrun, hg']; exact hwf) (by rw [hrun, hg']; exact hac),
+      query_fresh_acyclic addrs h q rank hwf hac, fresh_is_cold, fresh_is_cold, hrun, hg']
+
 /-! ### the full statement is false on cyclic graphs (known finding c08-cyclic-skip-false)
 
 -- OPEN (false as stated; see `query_fresh_not_full`):
 --   theorem query_fresh : ∀ addrs h q, wfHistory (PState.init addrs) (h ++ [.query q]) = true →
 --     liveAnswer addrs h q = freshAnswer addrs h q
--- OPEN (true as far as explored by K/S, not proved: needs memo soundness on acyclic graphs):
---   theorem query_fresh_acyclic : ∀ addrs h q, wfHistory (PState.init addrs) (h ++ [.query q]) = true →
---     ((PState.init addrs).run h).g.Acyclic → liveAnswer addrs h q = freshAnswer addrs h q
 -/
 
 /-- 4 nodes `q=0 ⇄ p=1`, `A1=2 → p`, `A2=3 → q`; `g` (binding 1) originates at `A1` (no sources) and at
@@ -144,6 +174,20 @@ example : wfHistory (PState.init []) pasteHistory = true ∧
     ((PState.init []).run pasteHistory).memo = none ∧
     liveAnswer [] pasteHistory (.visible 1 1) = .bool true ∧
     freshAnswer [] pasteHistory (.visible 1 1) = .bool true := by decide +kernel
+
+-- `query_fresh_acyclic` applies with a live, non-empty memo: an acyclic conditioned graph, three queries
+def acyclicHistory : List Op := condHistory ++ [.query (.has 2 [0]), .query (.visible 1 2), .query (.filter 0 2 true)]
+
+set_option maxRecDepth 100000 in
+example : wfHistory (PState.init []) acyclicHistory = true ∧
+    ((PState.init []).run acyclicHistory).g.wfB = true ∧ ((PState.init []).run acyclicHistory).g.forwardB = true ∧
+    (((PState.init []).run acyclicHistory).memo.map (fun m => decide (m.length > 2))) = some true := by
+  decide +kernel
+
+set_option maxRecDepth 100000 in
+example : liveAnswer [] acyclicHistory (.has 2 [0, 1]) = freshAnswer [] acyclicHistory (.has 2 [0, 1]) :=
+  query_fresh_acyclic [] acyclicHistory _ _
+    (Graph.wf_of_wfB _ (by decide +kernel)) (Graph.acyclicBy_of_forwardB _ (by decide +kernel))
 
 -- the hypothesis of `mutation_resets_memo` is satisfiable with a live solver
 set_option maxRecDepth 100000 in
